@@ -12,6 +12,12 @@ fn random_float(min: Value, max: Value) -> Resolved {
         return Err("max must be greater than min".into());
     }
 
+    // `random_range` panics on a range that is not finite (an infinite bound, or a width that
+    // overflows `f64`).
+    if !(max - min).is_finite() {
+        return Err("min and max must span a finite range".into());
+    }
+
     let f: f64 = rand::rng().random_range(min..max);
 
     Ok(Value::Float(NotNan::new(f).expect("always a number")))
